@@ -108,6 +108,14 @@ void verif_alloc_begin(unsigned long k)
 	requests = live_blocks = open_files = failed_req = 0; live_bytes = peak_bytes = 0;
 	fail_at = k; active = 1;
 }
+/* the driver's own allocations inside the region (buffers it hands to the
+   library, names it parses) are neither counted nor failed */
+static int suspended_state;
+void verif_alloc_suspend(void) { suspended_state = active; active = 0; }
+void verif_alloc_resume(void) { active = suspended_state; }
+unsigned long verif_alloc_live(void) { return live_blocks; }
+unsigned long verif_alloc_files(void) { return open_files; }
+unsigned long verif_alloc_requests(void) { return requests; }
 void verif_alloc_end(FILE *out)
 {
 	active = 0;
